@@ -137,9 +137,11 @@ CLAIMED["C13"] = dict(
          "against an insertion-ordered model, with no leak on failed lookups.  vnaproperty_quote_key against the real "
          "scanner: for keys of 1-2 bytes (3 in thorough) with one representative byte per scanner character class at "
          "each position (every one-byte key in thorough) the quoted key scans as exactly one identifier whose text is "
-         "the original key, with nothing after it.",
-    note="descriptor parser (parse, parse_and_descend), vnacal_property_* wrappers and errno classes of malformed "
-         "descriptors are NOT covered; <ctype.h> by a C-locale table model; bounded sizes",
+         "the original key, with nothing after it.  The descriptor parser on a SAMPLE of concrete descriptors (set, get, "
+         "get_subtree, delete; trailing tokens, syntax error, missing key, type mismatch): documented errno, refused "
+         "calls change nothing, no leak.",
+    note="descriptor language only sampled (7 concrete histories), vnacal_property_* wrappers not covered; "
+         "<ctype.h> by a C-locale table model; vasprintf by contract (formats without conversions); bounded sizes",
     design="DESIGN.md 3 C13, 8.5",
     technique="CBMC contract harnesses on the static container functions (sequence / ordered-map views)",
 )
